@@ -135,6 +135,7 @@ static void ops_sequence(void *arg)
 
 	for (int i = 0; i < n; i++) {
 		int op = (int)rng_below(&g_orng, 12);
+		sim_progress();
 		if (op >= 10) { g_nops_done++; op_ctx_from_files(); continue; }
 		int bad = rng_chance(&g_orng, 1, 3);        /* take a failure path */
 		g_nops_done++;
